@@ -87,6 +87,12 @@ CATALOGUE = [
     ("claim_without_lock", ["C16"], [(PA, "        with inevalfilelock:\n            id_list = _load_first_column_entries(self.__output_buffer_file)", "        if True:\n            id_list = _load_first_column_entries(self.__output_buffer_file)")]),
     ("statistic_without_filelock", ["C16"], [(PA, "        with filelock:\n            obj = Panoptica_Statistic.from_file(self.__output_file)", "        if True:\n            obj = Panoptica_Statistic.from_file(self.__output_file)")]),
     ("claim_check_against_output_file", ["C16"], [(PA, "            id_list = _load_first_column_entries(self.__output_buffer_file)\n\n            if subject_name in id_list:", "            id_list = _load_first_column_entries(self.__output_file)\n\n            if subject_name in id_list:")]),
+    ("abba_lock_order", ["C16"], [
+        (PA, "        with inevalfilelock:\n            id_list = _load_first_column_entries(self.__output_buffer_file)\n\n            if subject_name in id_list:", "        with inevalfilelock, filelock:\n            id_list = _load_first_column_entries(self.__output_buffer_file)\n\n            if subject_name in id_list:"),
+        (PA, "        with filelock:\n            #\n            content = [subject_name]", "        with filelock, inevalfilelock:\n            #\n            content = [subject_name]")]),
+    ("lock_not_released_on_duplicate", ["C16"], [
+        (PA, "        with inevalfilelock:\n            id_list = _load_first_column_entries(self.__output_buffer_file)\n\n            if subject_name in id_list:\n                print(", "        inevalfilelock.acquire()\n        if True:\n            id_list = _load_first_column_entries(self.__output_buffer_file)\n\n            if subject_name in id_list:\n                print("),
+        (PA, "            _write_content(self.__output_buffer_file, [[subject_name]])\n", "            _write_content(self.__output_buffer_file, [[subject_name]])\n        inevalfilelock.release()\n")]),
     # ---- C17
     ("empty_file_no_header_again", ["C17"], [(PA, "                _write_content(output_file, [header])\n                continue_file = True", "                continue_file = True")]),
     ("shared_claim_file_again", ["C17"], [(PA, "            Path(out_file_path).stem + \"_panoptica_aggregator_tmp.tsv\"", "            \"panoptica_aggregator_tmp.tsv\"")]),
